@@ -79,6 +79,15 @@ impl GenerationCache {
         Ok(())
     }
 
+    /// Remove the cache record, if any.
+    ///
+    /// Called right before the bindings are rewritten: from then on the old record no longer
+    /// vouches for the files in the output directory, and it must not survive a run that fails
+    /// part-way.
+    pub fn invalidate<P: AsRef<Path>>(output_dir: P) {
+        let _ = fs::remove_file(Self::cache_path(output_dir));
+    }
+
     /// Check if generation is needed by comparing with previous cache
     pub fn needs_regeneration<P: AsRef<Path>>(
         output_dir: P,
